@@ -361,7 +361,7 @@ Qed.
 Lemma decorate_E st s p : decorate (E st) s p = Ep (decorate st s p).
 Proof.
   unfold decorate. rewrite get_scope_erase. cbn [s_decorators sc_set_verified].
-  destruct (existsb _ _); [reflexivity|].
+  destruct (negb _ || existsb _ _); [reflexivity|].
   unfold Ep. cbn [fst snd]. f_equal.
   rewrite <- E_upd_scope by (intros c; reflexivity). reflexivity.
 Qed.
